@@ -104,6 +104,42 @@ sys.exit(0 if got == {repr(exp)!r} else 1)
     }
     for e in df_ops:
         check("order port kind in both directions", f"({e}.port_kind(InPort(n, -1)), {e}.port_kind(OutPort(n, -1)))", (T.OrderKind(), T.OrderKind()), env)
+    # one operation object typed a second time (a builder does this whenever the same partial operation is
+    # added twice): every reported fact follows the latest typing - read before and after the re-typing
+    for I1, I2 in itertools.permutations(rows, 2):
+        i1, i2 = r(I1), r(I2)
+        facts = "(op.outer_signature(), op.num_out, [op.port_kind(InPort(n, k)) for k in range(len(op.outer_signature().input))], [op.port_kind(OutPort(n, k)) for k in range(op.num_out)])"
+        typed_twice = f"(lambda op: (op._set_in_types({{a}}), {facts}, op._set_in_types({{b}}), {facts})[3])({{ctor}})"
+        check("MakeTuple typed twice", typed_twice.format(a=i1, b=i2, ctor="O.MakeTuple()"),
+              (FT(I2, [T.Tuple(*I2)]), 1, [T.ValueKind(t) for t in I2], [T.ValueKind(T.Tuple(*I2))]), env)
+        check("Output typed twice", f"(lambda op: (op._set_in_types({i1}), op.outer_signature(), op._set_in_types({i2}), (op.outer_signature(), op.types))[3])(O.Output())",
+              (FT(I2, []), I2), env)
+        t1, t2 = f"[T.Tuple(*{i1})]", f"[T.Tuple(*{i2})]"
+        check("UnpackTuple typed twice", typed_twice.format(a=t1, b=t2, ctor="O.UnpackTuple()"),
+              (FT([T.Tuple(*I2)], I2), len(I2), [T.ValueKind(T.Tuple(*I2))], [T.ValueKind(t) for t in I2]), env)
+        if len(I1) == 1 and len(I2) == 1:
+            check("Noop typed twice", typed_twice.format(a=i1, b=i2, ctor="O.Noop()"), (FT(I2, I2), 1, [T.ValueKind(t) for t in I2], [T.ValueKind(t) for t in I2]), env)
+        f1, f2 = f"[T.FunctionType({i1}, {i2}), *{i1}]", f"[T.FunctionType({i2}, {i1}), *{i2}]"
+        check("CallIndirect typed twice", f"(lambda op: (op._set_in_types({f1}), op.outer_signature(), op.num_out, op._set_in_types({f2}), (op.outer_signature(), op.num_out))[4])(O.CallIndirect())",
+              (FT([FT(I2, I1), *I2], I1), len(I1)), env)
+    # the same through the builder: one partial operation object added to two builders of different rows
+    from hugr.build.dfg import Dfg as _Dfg
+    for I1, I2 in itertools.permutations([x for x in rows if x], 2):
+        ev += 1
+        mk, un = O.MakeTuple(), O.UnpackTuple()
+        got = []
+        for I in (I1, I2):
+            try:
+                dd = _Dfg(*I)
+                tn = dd.add_op(mk, *dd.inputs())
+                u = dd.add_op(un, tn[0])
+                dd.set_outputs(*[u[k] for k in range(len(I))])
+                got.append((dd.hugr.num_out_ports(u), dd.hugr.num_in_ports(tn), [dd.hugr.port_type(u.out(k)) for k in range(len(I))], un.outer_signature(), mk.outer_signature()))
+            except Exception as e:  # noqa: BLE001
+                got.append(f"{type(e).__name__}: {str(e)[:60]}")
+        exp = [(len(I), len(I), list(I), FT([T.Tuple(*I)], I), FT(I, [T.Tuple(*I)])) for I in (I1, I2)]
+        if repr(got) != repr(exp) and len(violations) < 12:
+            fail("a partial operation added to two builders reports the typing of each use", f"MakeTuple/UnpackTuple objects added over rows {r(I1)} then {r(I2)}", exp, got)
     # constants
     check("Const / LoadConst agree", "(O.Const(V.TRUE).port_kind(OutPort(n, 0)), O.LoadConst(V.TRUE.type_()).port_kind(InPort(n, 0)), O.LoadConst(V.TRUE.type_()).port_kind(OutPort(n, 0)), O.LoadConst(B).outer_signature())",
           (T.ConstKind(B), T.ConstKind(B), T.ValueKind(B), FT([], [B])), env)
